@@ -10,7 +10,7 @@ from sim.core import Violation
 from .c10_meta import TOL
 
 ID = "C10"
-SHRINK_LISTS = ("chunks", "chunks_a", "chunks_b")
+SHRINK_LISTS = ("chunks", "chunks_a", "chunks_b", "chunks_c")
 SHRINK_MIN = {"n": 1, "nchans": 1, "k": 1}
 FAMILIES = ["constant", "onebit", "smallint", "gauss", "gauss-bigmean", "heavy", "one-constant", "step", "step", "tiny", "huge"]
 CAL = bool(os.environ.get("VERIF_C10_CALIBRATE"))
@@ -59,7 +59,11 @@ def generate(rng, tier) -> dict:
     k = rng.choice([1, n - 1, rng.randint(1, max(1, n - 1))]) if n >= 2 else 0
     return {"n": n, "nchans": nch, "mode": rng.choice(["basic", "full"]), "family": rng.choice(FAMILIES),
             "dseed": rng.randrange(1 << 30), "chunks": composition(rng, n), "k": k,
-            "chunks_a": composition(rng, k), "chunks_b": composition(rng, n - k), "order": rng.choice(["ab", "ba", "a+=b", "b+=a"])}
+            "chunks_a": composition(rng, k), "chunks_b": composition(rng, n - k), "order": rng.choice(["ab", "ba", "a+=b", "b+=a"]),
+            # the merged accumulator is then fed the REST of the stream (the second accumulator was declared for
+            # all of x[k:] but had only received x[k:n-tail] when the two were added)
+            "tail": rng.choice([0, 0, 1, rng.randint(1, max(1, n - k - 1))]) if n - k >= 2 else 0,
+            "chunks_c": composition(rng, rng.randint(1, 30))}
 
 
 def _fix(parts, total):
@@ -83,6 +87,7 @@ def fixup(sc):
     sc["chunks"] = _fix(sc["chunks"], sc["n"])
     sc["chunks_a"] = _fix(sc["chunks_a"], sc["k"])
     sc["chunks_b"] = _fix(sc["chunks_b"], sc["n"] - sc["k"])
+    sc["tail"] = max(0, min(int(sc.get("tail") or 0), sc["n"] - sc["k"] - 1)) if sc["k"] >= 1 else 0
     return sc
 
 
@@ -272,3 +277,30 @@ def execute(sc, ctx) -> None:
                     raise Violation(f"C10/merge/not-repeatable/{mode}", kk, {"api": "merge"})
             ctx.probe("merge-repeated")
         ctx.log("merge", k, sc["order"], [float(v) for v in m["mean"]])
+
+    t = int(sc.get("tail") or 0)
+    if n >= 3 and 1 <= k < n and 1 <= t <= n - k - 1:
+        from sigpyproc.core.stats import ChannelStats
+
+        ctx.probe("merged-accumulator-fed-the-rest-of-the-stream")
+        a = push(x[:k], sc["chunks_a"], mode, k)
+        b = ChannelStats(x.shape[1], n - k)
+        off = 0
+        for p in _fix(sc["chunks_b"], n - k - t):
+            b.push_data(np.ascontiguousarray(x[k + off : k + off + p]).ravel(), off, mode=mode)
+            off += p
+        if "+=" in sc["order"]:
+            left, right = (a, b) if sc["order"] == "a+=b" else (b, a)
+            c = left
+            c += right
+        else:
+            c = (b + a) if sc["order"] == "ba" else (a + b)
+        off = n - t
+        for p in _fix(sc.get("chunks_c") or [t], t):
+            c.push_data(np.ascontiguousarray(x[off : off + p]).ravel(), off, mode=mode)
+            off += p
+        if c.nsamps != n:
+            raise Violation(f"C10/merge-then-continue/nsamps/{mode}", f"{c.nsamps} != {n}", {"api": "merge-then-continue"})
+        mc = readout(c, mode)
+        check("merge-then-continue", mc, tr, mode, sc, ctx)
+        ctx.log("merge-then-continue", k, t, [float(v) for v in mc["mean"]])
